@@ -171,6 +171,7 @@ func checkC11(c *Ctx) {
 	// goimports resolves an un-aliased import of a …/vN path by reading the target directory: the
 	// vN → versionN rename keeps the generated content independent of what is already on disk
 	checkFoldedPatterns(c, "C11.R5.versioned-packages", gen)
+	checkVersionedImports(c, "C11.R5.versioned-imports", gen)
 }
 
 func checkConfigureWiring(c *Ctx, gen, cmd *packages.Package) {
